@@ -363,6 +363,16 @@ def _convert_csp_to_z3(csp: list[FNode]) -> list:
     return [converter.convert(expr) for expr in csp]
 
 
+def _model_to_dict(m: z3.ModelRef) -> dict[str, int]:
+    """Integer constants of a z3 model (z3 may add Boolean helper constants such as
+    ``poly!0`` to optimisation models; they are not part of the solution)."""
+    return {
+        d.name(): cast(Any, m[d]).as_long()
+        for d in m.decls()
+        if z3.is_int_value(m[d])
+    }
+
+
 def solve_and_get_model(
     csp: list[FNode], minimize_vars: list[str] | None = None
 ) -> dict[str, int] | None:
@@ -385,7 +395,7 @@ def solve_and_get_model(
         s.add(*z3_csp)
         if s.check() == z3.sat:
             m = s.model()
-            return {d.name(): cast(Any, m[d]).as_long() for d in m.decls()}
+            return _model_to_dict(m)
         return None
 
     # Otherwise build an optimiser.
@@ -400,7 +410,7 @@ def solve_and_get_model(
     # Enumerate first Pareto-optimal model (suffices since *priority='pareto'*).
     if opt.check() == z3.sat:
         m = opt.model()
-        return {d.name(): cast(Any, m[d]).as_long() for d in m.decls()}
+        return _model_to_dict(m)
 
     return None
 
@@ -439,19 +449,29 @@ def solve_pareto_front(
 
     z3_csp = _convert_csp_to_z3(csp)
 
-    opt = z3.Optimize()
-    opt.set(priority="pareto")
-    opt.add(*z3_csp)
-
-    for vname in minimize_vars:
-        opt.minimize(z3.Int(vname))
-
     results: list[dict[str, int]] = []
-    while opt.check() == z3.sat:
-        m = opt.model()
-        results.append({d.name(): cast(Any, m[d]).as_long() for d in m.decls()})
+    # Constraints excluding everything a solution found so far dominates (or equals).
+    # The first model z3 returns under priority='pareto' is Pareto-optimal for the
+    # constraints it is given; a point that is optimal among the points not dominated
+    # by earlier solutions is Pareto-optimal for the original problem as well, so the
+    # loop yields every Pareto-optimal vector exactly once and stops when none is left.
+    not_dominated: list = []
+    while True:
+        opt = z3.Optimize()
+        opt.set(priority="pareto")
+        opt.add(*z3_csp)
+        opt.add(*not_dominated)
+        for vname in minimize_vars:
+            opt.minimize(z3.Int(vname))
+        if opt.check() != z3.sat:
+            break
+        solution = _model_to_dict(opt.model())
+        results.append(solution)
         if max_solutions is not None and len(results) >= max_solutions:
             break
+        not_dominated.append(
+            z3.Or([z3.Int(v) < solution.get(v, 0) for v in minimize_vars])
+        )
 
     return results
 
